@@ -284,7 +284,10 @@ def run(repo: Repo, rep: Report, tier: str) -> None:
             f = n.func
             nm = f.id if isinstance(f, ast.Name) else f.attr if isinstance(f, ast.Attribute) else ""
             if nm in ("sorted", "sort", "reversed", "reverse", "shuffle"):
-                reorder.append(ast.unparse(n)[:80])
+                txt = ast.unparse(n)
+                # only the sequences that carry the per-field blocks / their order
+                if re.search(r"\b(field_blocks|filtered_fields|field_types)\b", txt):
+                    reorder.append(txt[:80])
         if isinstance(n, ast.For) and isinstance(n.iter, ast.Call) and isinstance(n.iter.func, ast.Name) and n.iter.func.id in ("set", "frozenset"):
             reorder.append(ast.unparse(n.iter)[:80])
     if reorder:
